@@ -121,11 +121,14 @@ func (f *Replace) Call(s *slip.Scope, args slip.List, depth int) (result slip.Ob
 	}
 	result = args[0]
 	seq2 := seqToList(s, args[1], "sequence-2", start2, end2, depth)
+	if sameSequence(args[0], args[1]) {
+		// As if the source were copied first, the regions may overlap.
+		seq2 = append(slip.List{}, seq2...)
+	}
 	switch seq1 := args[0].(type) {
 	case nil:
 	case slip.List:
 		end1 = f.checkStartEnd(s, start1, end1, len(seq1), depth)
-		// TBD check seq1 == seq2
 		for i, v := range seq2 {
 			if end1 <= start1+i {
 				break
@@ -147,7 +150,7 @@ func (f *Replace) Call(s *slip.Scope, args slip.List, depth int) (result slip.Ob
 		}
 		result = slip.String(ra)
 	case *slip.Vector:
-		end1 = f.checkStartEnd(s, start1, end1, seq1.Length(), depth)
+		end1 = f.checkStartEnd(s, start1, end1, len(seq1.AsList()), depth) // up to the fill pointer
 		for i, v := range seq2 {
 			if end1 <= start1+i {
 				break
@@ -180,13 +183,13 @@ func (f *Replace) checkStartEnd(s *slip.Scope, start, end, size, depth int) int 
 	if size == 0 && start == 0 && end == -1 {
 		return 0
 	}
-	if size <= start {
+	if size < start {
 		slip.ErrorPanic(s, depth, "Start of %d is out of bounds for sequence-1 with length %d.", start, size)
 	}
 	if end == -1 {
 		end = size
 	} else {
-		if size <= end {
+		if size < end {
 			slip.ErrorPanic(s, depth, "End of %d is out of bounds for sequence-1 with length %d.", end, size)
 		}
 		if end < start {
@@ -194,4 +197,17 @@ func (f *Replace) checkStartEnd(s *slip.Scope, start, end, size, depth int) int 
 		}
 	}
 	return end
+}
+
+// sameSequence returns true if the two sequences are the same list or vector.
+func sameSequence(seq1, seq2 slip.Object) bool {
+	switch t1 := seq1.(type) {
+	case slip.List:
+		t2, ok := seq2.(slip.List)
+		return ok && 0 < len(t1) && 0 < len(t2) && &t1[0] == &t2[0]
+	case *slip.Vector:
+		t2, ok := seq2.(*slip.Vector)
+		return ok && t1 == t2
+	}
+	return false
 }
